@@ -172,8 +172,8 @@ int Linker::search_code_from_symbol(const char *symbol)
 uint8_t *Linker::get_code_from_symbol(
   Imports **ret_imports,
   const char *symbol,
-  uint32_t *function_size,
   uint32_t *function_offset,
+  uint32_t *function_size,
   uint8_t **obj_file,
   uint32_t *obj_size)
 {
@@ -201,8 +201,8 @@ uint8_t *Linker::get_code_from_symbol(
         imports->code,
         imports->size,
         symbol,
-        function_size,
         function_offset,
+        function_size,
         &file_offset,
         obj_file,
         obj_size);
